@@ -44,6 +44,10 @@ def decode_value(v):
                 return cls(b)
             except Exception:
                 return bytes.__new__(cls, b)
+        if '__repeat__' in v:
+            b = bytes(v['__repeat__']) * v['n'] + bytes(v.get('tail', []))
+            cls = load_cls(v.get('cls', 'builtins:bytes'))
+            return b if cls is bytes else cls(b)
         if '__tuple__' in v:
             return tuple(decode_value(x) for x in v['__tuple__'])
         if '__list__' in v:
